@@ -28,6 +28,10 @@ def attach(run):
         mons.append(TrainWindowMonitor(run))
     if "C15" in cl and run.adapter.name == "td7":
         mons.append(DeferredTrainingMonitor(run))
+    if "C07.rtg" in cl and getattr(run.adapter, "kind", None) == "episodes":
+        mons.append(ReturnMonitor(run))
+    if "C07.ppo" in cl and run.adapter.name == "ppo":
+        mons.append(PPOAdvantageMonitor(run))
     if "C03.value" in cl:
         from . import refine
 
@@ -305,6 +309,170 @@ class DatasetMonitor:
                 run.res.fault("one_step_episode")
 
 
+class ReturnMonitor:
+    """C07 (reward-to-go inside REINFORCE / actor-critic training): for every dataset the collector handed to the learner the
+    prepared returns equal the float64 recurrence G_t = r_t + gamma * G_{t+1} restarted in every episode record, and the
+    discount column equals gamma ** t; inputs are the rewards the dataset itself holds."""
+
+    def __init__(self, run):
+        self.run = run
+
+    def finish(self):
+        run = self.run
+        env = run.sub_envs()[0]
+        g = run.plan["cfg"].get("gamma", 1.0)
+        for n, (first, last, out) in enumerate(getattr(run, "datasets", [])):
+            eps = [ep for ep in out.episodes if ep]
+            if not eps:
+                continue
+            try:
+                prep = out.prepare_policy_gradient_dataset(env.action_space, g)
+            except Exception as e:
+                from .core import raised_by_code_under_test
+                if not raised_by_code_under_test(e):
+                    raise
+                run.V("C07.raise", f"prepare_policy_gradient_dataset raised {type(e).__name__}: {e}")
+                return
+            got = np.asarray(prep[3], dtype=np.float64).reshape(-1)
+            disc = np.asarray(prep[4], dtype=np.float64).reshape(-1)
+            want, wdisc = [], []
+            for ep in eps:
+                r = [float(x[3]) for x in ep]
+                G = np.zeros(len(r))
+                acc = 0.0
+                for t in range(len(r) - 1, -1, -1):
+                    acc = r[t] + g * acc
+                    G[t] = acc
+                want.extend(G)
+                wdisc.extend(g ** np.arange(len(r)))
+            want, wdisc = np.asarray(want), np.asarray(wdisc)
+            if got.shape != want.shape:
+                run.V("C07.rtg", f"dataset {n}: {got.size} returns for {want.size} kept steps")
+                return
+            tol = 1e-5 * (1 + np.abs(want)) * max(len(e) for e in eps)
+            bad = np.abs(got - want) > tol
+            if bad.any():
+                i = int(np.argmax(bad))
+                lens = [len(e) for e in eps]
+                kinds = sorted({type(x[3]).__name__ for ep in eps for x in ep})
+                run.V("C07.rtg", f"dataset {n}: reward-to-go of row {i} is {got[i]!r}, the recurrence G_t = r_t + gamma G_t+1 (restarted per episode) gives {want[i]!r}; "
+                                 f"gamma={g}, episode lengths {lens}, reward types {kinds}, rewards {[x[3] for ep in eps for x in ep][:12]}")
+                return
+            if disc.shape == wdisc.shape and np.any(np.abs(disc - wdisc) > 1e-5 * (1 + wdisc)):
+                i = int(np.argmax(np.abs(disc - wdisc)))
+                run.V("C07.rtg", f"dataset {n}: discount column of row {i} is {disc[i]!r}, expected gamma**t = {wdisc[i]!r}")
+                return
+            run.res.probe("reward_to_go_matches_recurrence")
+            if len(eps) > 1:
+                run.res.probe("reward_to_go_over_several_episodes")
+            if all(isinstance(x[3], (int, np.integer)) for x in eps[0]) and g < 1 and len(eps[0]) > 1:
+                run.res.probe("reward_to_go_integer_rewards")
+
+
+class PPOAdvantageMonitor:
+    """C07 inside train_ppo (parallel scripted environments, SAME_STEP autoreset):
+    (a) the value network is asked, for the bootstrap of environment e, only about observations of environment e (tags of
+        parallel environments live in disjoint ranges); (b) the advantages / returns the loss receives equal, per environment,
+        the GAE recurrence over that environment's own rollout segment (gamma=0.99, lambda=0.95: the documented defaults of
+        compute_gae, which update_ppo does not override), cut at terminated steps, started from zero at the end of the segment.
+    Observed through a probe on the critic, the recorded collector output and a recording wrapper around the module-level name
+    `ppo_loss` (reports the arrays it is traced with through jax.debug.callback)."""
+
+    GAMMA, LAMBDA = 0.99, 0.95
+
+    def __init__(self, run):
+        import importlib
+
+        import jax
+
+        from .probes import probe, probe_function
+
+        self.run = run
+        jax.clear_caches()  # update_ppo is jitted at module level: make sure it is traced with the wrapper, whatever ran before in this process
+        self.mod = importlib.import_module("rl_blox.algorithm.ppo")
+        self.undo = probe_function(self.mod, "ppo_loss", "ppo_loss", run.recorder)
+        probe(run.comps["value_function"], "vf", run.recorder)
+
+    def finish(self):
+        import jax
+
+        run = self.run
+        mod, name, orig = self.undo
+        setattr(mod, name, orig)
+        recs = run.recorder.take()
+        jax.clear_caches()
+        envs = run.sub_envs()
+        N = len(envs)
+        T = run.plan["cfg"]["batch_size"]
+        od = envs[0].obs_dim
+        own = [set() for _ in envs]
+        for e, env in enumerate(envs):
+            for ev in env.log:
+                if ev["k"] == "reset":
+                    own[e].add(ev["gid"])
+                elif ev["k"] == "step":
+                    own[e].add(ev["gid1"])
+        # (a) bootstrap inputs
+        foreign = False
+        for tag, args, out in recs:
+            if foreign or tag != "vf" or not args or args[0].ndim != 2 or args[0].shape != (N, od):
+                continue
+            for e in range(N):
+                g = obs_gid(args[0][e])
+                if g is not None and g not in own[e]:
+                    owner = next((j for j in range(N) if g in own[j]), None)
+                    run.V("C07.ppo.bootstrap", f"the value bootstrap of environment {e} was computed from observation #{g}, which belongs to environment {owner}")
+                    foreign = True
+                    break
+            if not foreign:
+                run.res.probe("ppo_bootstrap_inputs_checked")
+        # (b) advantages per environment
+        losses = [(np.asarray(a[2] if len(a) > 2 else a[0]), a) for tag, a, out in recs if tag == "ppo_loss"]
+        g, lam = self.GAMMA, self.LAMBDA
+        for n, (first, last, out) in enumerate(getattr(run, "datasets", [])):
+            obs = np.asarray(out.observation)
+            if obs.shape[0] != N * T:
+                run.res.unchecked += 1
+                continue
+            rec = None
+            for tag, a, _ in recs:
+                if tag != "ppo_loss":
+                    continue
+                cand = [x for x in a if x.ndim == 2 and x.shape == obs.shape and np.array_equal(x, obs)]
+                vecs = [x for x in a if x.ndim == 1 and x.shape[0] == N * T and x.dtype.kind == "f"]
+                if cand and len(vecs) >= 3:
+                    rec = vecs
+                    break
+            if rec is None:
+                run.res.unchecked += 1
+                run.res.probe("ppo_loss_inputs_not_observed")
+                continue
+            # ppo_loss(actor, critic, old_logps, observations, actions, advantages, returns): float vectors in order
+            adv, ret = (np.asarray(x, dtype=np.float64).reshape(N, T) for x in rec[-2:])
+            v = ret - adv
+            r = np.asarray(out.reward, dtype=np.float64).reshape(N, T)
+            term = np.asarray(out.terminated, dtype=np.float64).reshape(N, T)
+            nv = np.asarray(out.next_value, dtype=np.float64).reshape(N, T)
+            want = np.zeros((N, T))
+            acc = np.zeros(N)
+            for t in range(T - 1, -1, -1):
+                delta = r[:, t] + g * nv[:, t] * (1 - term[:, t]) - v[:, t]
+                acc = delta + g * lam * (1 - term[:, t]) * acc
+                want[:, t] = acc
+            scale = 1 + np.abs(r).max() + np.abs(v).max() + np.abs(nv).max()
+            tol = 1e-5 * (1 + np.abs(want)) + 64 * 1.2e-7 * scale * T
+            bad = np.abs(adv - want) > tol
+            if bad.any():
+                e, t = (int(x) for x in np.argwhere(bad)[0])
+                # would the value be explained by continuing the recursion into the next environment's segment?
+                run.V("C07.ppo.gae", f"rollout {n}: advantage of environment {e} at time {t} is {adv[e, t]!r}; the GAE recurrence over that environment's own segment gives {want[e, t]!r} "
+                                 f"({N} environments x {T} steps, terminated flags of that environment {term[e].astype(int).tolist()}, last step terminated: {bool(term[e, -1])})")
+                return
+            run.res.probe("ppo_advantages_match_per_environment_recurrence")
+            if N > 1 and not term[:-1, -1].all():
+                run.res.probe("ppo_segment_boundary_not_terminated")
+
+
 class ActMonitor:
     """C01.c/d, C10.a/e, C13.a at the instant of env.step."""
 
@@ -463,7 +631,20 @@ class BudgetMonitor:
                 if not c["last_done"] and ex:
                     run.V("C11.b", "the last executed step did not end an episode")
                 continue
-            if ex > budget:
+            late = None
+            if hasattr(ad, "collectors") and len(run.calls) == 1:
+                # batch / episode granular collectors: no collection may START once the budget has been reached
+                for n, (first, last, out) in enumerate(getattr(run, "datasets", [])):
+                    started_at = sum(first) - run.steps_at_call_all
+                    if started_at >= budget and sum(last) > sum(first):
+                        late = (n, started_at)
+                        break
+            if late is not None:
+                run.V("C11.a", f"collection {late[0]} was started after {late[1]} environment steps although total_timesteps={T} had already been reached ({ex} steps executed in total)")
+            elif ex > budget and hasattr(ad, "collectors"):
+                # the last collection started inside the budget and ran over it (documented collector granularity)
+                run.V("C11.a.last_collection", f"executed {ex} environment steps with total_timesteps={T}: the last collection started inside the budget and overshot it")
+            elif ex > budget:
                 run.V("C11.a", f"executed {ex} environment steps with total_timesteps={T}, global_step={c['start']} (remaining budget {budget})")
             elif E is None and ex < budget and ad.stops_exactly:
                 run.V("C11.a", f"executed only {ex} of the remaining budget {budget} without an episode limit")
@@ -478,6 +659,8 @@ class BudgetMonitor:
                         run.V("C11.b", f"a step was executed after the {E}-th episode had finished")
             if ex == budget and budget > 0:
                 run.res.fault("budget_exit")
+                if hasattr(ad, "collectors"):
+                    run.res.fault("budget_ends_at_collection_boundary")
                 if c["last_done"]:
                     run.res.fault("episode_end_on_last_budgeted_step")
             if budget == 0:
